@@ -8,6 +8,14 @@ W1_COMPONENTS = {
 }
 
 PROPS = {
+    "C09": {
+        "level": "exploration",
+        "quick_runs": 5000, "quick_budget_s": 60,
+        "thorough_budget_s": 600,
+        "rule": "C09 scenario: (history) random completed/cancelled/unanswered queries on a transport with limit L in 1..6 with the per-connection invariant checked at every received query, then a quiescent capacity probe; (dialing) Lq callers queued on a held dial; (direct) Reserve/Exchange/Withdraw on one TraditionalDnsConn from several tasks.",
+        "components": W1_COMPONENTS,
+        "cfg_dist_keys": ["mode", "kind", "L"],
+    },
     "C08": {
         "level": "exploration",
         "quick_runs": 5000, "quick_budget_s": 60,
